@@ -6,8 +6,11 @@ import (
 	"bytes"
 	"context"
 	"errors"
+	"os"
 	"os/exec"
+	"path/filepath"
 	"strings"
+	"sync"
 	"time"
 )
 
@@ -38,6 +41,9 @@ func Run(stdin []byte, tool string, args ...string) (stdout, stderr []byte, err 
 	defer cancel()
 	cmd := exec.CommandContext(ctx, tool, args...)
 	cmd.Stdin = bytes.NewReader(stdin)
+	// all callers talk to the tools through stdin/stdout; files that passes write
+	// on the side (insert-gcov-profiling: <module>.gcno) must not land in /verif
+	cmd.Dir = scratchDir()
 	var so, se bytes.Buffer
 	cmd.Stdout = &so
 	cmd.Stderr = &se
@@ -46,6 +52,23 @@ func Run(stdin []byte, tool string, args ...string) (stdout, stderr []byte, err 
 		return so.Bytes(), se.Bytes(), ErrTimeout
 	}
 	return so.Bytes(), se.Bytes(), err
+}
+
+var (
+	scratchOnce sync.Once
+	scratch     string
+)
+
+// scratchDir is the working directory of every tool invocation (
+// one fixed directory, a few hundred bytes at most; nothing is read from it).
+func scratchDir() string {
+	scratchOnce.Do(func() {
+		d := filepath.Join(os.TempDir(), "verif-llvmtools")
+		if os.MkdirAll(d, 0o755) == nil {
+			scratch = d
+		}
+	})
+	return scratch
 }
 
 // Available reports whether the tools answer --version.
